@@ -1,16 +1,19 @@
 #!/bin/sh
-# tools/mutate.sh <patch-file> <check-id>... : apply a patch to /repo, run the quick checks, revert; prints CAUGHT/MISSED per check
+# tools/mutate.sh <patch-file> <check-id>... : apply a patch to the repository (ZV_REPO, default /repo), run the quick checks, revert;
+# prints CAUGHT/MISSED per check.  Works inside a `vp run --with-repo` snapshot (export ZV_REPO=$VP_RUN_REPO).
 p=$1; shift
-cd /repo || exit 2
+here=$(cd "$(dirname "$0")/.." && pwd)
+repo=${ZV_REPO:-/repo}
+cd "$repo" || exit 2
 if ! git apply --check "$p" 2>/dev/null; then echo "PATCH-DOES-NOT-APPLY $p"; exit 2; fi
 git apply "$p"
 # evidence files must only ever come from the unchanged tree: keep them aside while the checks run on the patched one
-ev=$(mktemp -d /root/scratch/evidence-keep.XXXXXX); cp -a /verif/evidence/. "$ev"/
+ev=$(mktemp -d /root/scratch/evidence-keep.XXXXXX); cp -a "$here"/evidence/. "$ev"/
 for id in "$@"; do
-  out=$(cd /verif && VERIF_SEED=${VERIF_SEED:-0} timeout 600 ./check $id ${TIER:-quick} 2>&1); rc=$?
+  out=$(cd "$here" && VERIF_SEED=${VERIF_SEED:-0} timeout 600 ./check $id ${TIER:-quick} 2>&1); rc=$?
   if [ $rc -eq 1 ]; then echo "CAUGHT $id $(basename $p): $(echo "$out" | grep -m1 'witness mechanism' | cut -c1-160)";
   elif [ $rc -eq 0 ]; then echo "MISSED $id $(basename $p)";
   else echo "INCONCLUSIVE($rc) $id $(basename $p): $(echo "$out" | grep -m1 INCONCLUSIVE | cut -c1-200)"; fi
 done
 git checkout -- . ; git status --short | head -3
-cp -a "$ev"/. /verif/evidence/; rm -rf "$ev"
+cp -a "$ev"/. "$here"/evidence/; rm -rf "$ev"
